@@ -227,8 +227,25 @@ func (s *session) commit(r *sessionRecord, trivial bool) (err error) {
 		// manifest journal writer not yet created, create one
 		err = s.newManifest(r, nv)
 	} else if s.manifest.Size() >= s.o.GetMaxManifestFileSize() {
-		// pass nil sessionRecord to avoid over-reference table file
-		err = s.newManifest(nil, nv)
+		// pass a sessionRecord without the table changes to avoid over-reference
+		// table file, but carry the journal and sequence numbers of this edit:
+		// the new manifest must not fall back to the previously committed ones.
+		nr := &sessionRecord{}
+		if r.has(recJournalNum) {
+			nr.setJournalNum(r.journalNum)
+		}
+		if r.has(recPrevJournalNum) {
+			nr.setPrevJournalNum(r.prevJournalNum)
+		}
+		if r.has(recSeqNum) {
+			nr.setSeqNum(r.seqNum)
+		}
+		err = s.newManifest(nr, nv)
+		if err == nil {
+			for _, cp := range r.compPtrs {
+				s.setCompPtr(cp.level, cp.ikey)
+			}
+		}
 	} else {
 		err = s.flushManifest(r)
 	}
